@@ -392,7 +392,9 @@ func TestVerifC03_keyparse(t *testing.T) {
 	r.Rule("encapsulation keys: every 12-bit value v in [0,4096) at coefficient positions {0,1,255 of the first polynomial, 0 and 255 of the last}, and all coefficients = v for all v, all-FF: " +
 		"ML-KEM Unmarshal accepts iff every coefficient < q (FIPS 203 7.2 modulus check) and then re-encodes identically; accepted keys (Kyber: every key, lenient by spec) encapsulate like the reference on the raw bytes " +
 		"(quick: v in a boundary set and every 64th; thorough: all v). Decapsulation keys: every single-bit flip of the whole key: ML-KEM refuses every flip inside ek or H(ek), accepts every flip in z and every flip in " +
-		"dk_PKE that leaves the coefficient < q and re-encodes identically; every accepted key decapsulates like the reference on the raw bytes (quick: every 11th bit of dk_PKE; thorough: all); non-trivial = each distinct (scheme, altered key)")
+		"dk_PKE that leaves the coefficient < q and re-encodes identically; every accepted key decapsulates like the reference on the raw bytes (quick: every 11th bit of dk_PKE; thorough: all). " +
+		"Decapsulation keys whose embedded ek carries every v in [q,4096) at the same 5 coefficient positions or at all positions, with the stored hash taken over the key bytes (FIPS check passes: either verdict, accepted keys must decapsulate like the reference) " +
+		"and over the mod-q normalised ek (hash does not match the bytes: ML-KEM must refuse); non-trivial = each distinct (scheme, altered key)")
 	r.NotExhaustive("one base key per scheme (d = SHAKE256(verif0), z = SHAKE256(verif1)); multi-position deviations only as 'all coefficients = v'")
 	boundary := map[int]bool{}
 	for _, v := range []int{0, 1, 2, 1664, 1665, 2047, 2048, c03q - 2, c03q - 1, c03q, c03q + 1, 2*c03q - 1, 2 * c03q, 2*c03q + 1, 4094, 4095} {
@@ -589,6 +591,104 @@ func TestVerifC03_keyparse(t *testing.T) {
 					fmt.Sprintf("%s (bit in %s): Decapsulate = %x, %s on the raw key bytes = %x", id, region, got, s.spec(), want), rp)
 			}
 		})
+
+		// ---- decapsulation keys whose embedded ek has 12-bit coefficients v in [q,4096), with the stored
+		// hash computed (a) over the key bytes as they are, (b) over the mod-q normalised ek.
+		// FIPS 203 7.3: the hash check is on the bytes. (b) therefore has a mismatching hash and must be
+		// refused. (a) passes the FIPS check but cannot re-encode to itself once coefficients are reduced,
+		// so it is not a "well-formed key" in the sense of the property: either verdict is allowed, and
+		// if it is accepted it must decapsulate like Decaps_internal on the raw bytes.
+		type dkCase struct {
+			name string
+			pos  int // -1: all coefficients
+			v    int
+			norm bool
+		}
+		var dkCases []dkCase
+		for _, norm := range []bool{false, true} {
+			for v := c03q; v < 4096; v++ {
+				for _, pos := range positions {
+					dkCases = append(dkCases, dkCase{fmt.Sprintf("ekcoef%d=%d/hash-over-normalised=%v", pos, v, norm), pos, v, norm})
+				}
+				dkCases = append(dkCases, dkCase{fmt.Sprintf("ekallcoef=%d/hash-over-normalised=%v", v, norm), -1, v, norm})
+			}
+		}
+		ekOff := 384 * p.K
+		verifmc.ParallelFor(len(dkCases), func(ci int) {
+			c := &dkCases[ci]
+			id := s.name + "/dk/" + c.name
+			if !r.Want(id) {
+				return
+			}
+			key := append([]byte{}, dk...)
+			raw := key[ekOff : ekOff+len(ek)]
+			normEk := append([]byte{}, raw...)
+			if c.pos >= 0 {
+				c03Set12(raw, c.pos, c.v)
+				c03Set12(normEk, c.pos, c.v-c03q)
+			} else {
+				for pos := 0; pos < 256*p.K; pos++ {
+					c03Set12(raw, pos, c.v)
+					c03Set12(normEk, pos, c.v-c03q)
+				}
+			}
+			if c.norm {
+				copy(key[ekOff+len(ek):], ref.H(normEk))
+			} else {
+				copy(key[ekOff+len(ek):], ref.H(raw))
+			}
+			rp := map[string]interface{}{"scheme": s.name, "dk": verifmc.FullHex(key), "ct": verifmc.FullHex(honestCt),
+				"embedded_ek_coefficient": c.v, "stored_hash_over": map[bool]string{true: "normalised ek (does not match the bytes)", false: "the ek bytes"}[c.norm]}
+			var sk kem.PrivateKey
+			var err error
+			if pn, what := verifmc.Try(func() { sk, err = s.s.UnmarshalBinaryPrivateKey(append([]byte{}, key...)) }); pn {
+				r.Violation("C03|"+s.name+".UnmarshalBinaryPrivateKey|panic|embedded ek coefficient>=q", id, what, rp)
+				return
+			}
+			r.Eval(1)
+			r.Distinct("dk-ek", id)
+			hashOK := ref.CheckDecapsKey(p, key) == nil
+			if hashOK == c.norm {
+				t.Errorf("harness: hash variant construction wrong for %s", id)
+				return
+			}
+			if s.mlkem {
+				if !hashOK {
+					r.Count("dk_unreduced_ek_hash_over_normalised_cases", 1)
+					if err == nil {
+						re, _ := sk.MarshalBinary()
+						r.Violation("C03|"+s.name+".UnmarshalBinaryPrivateKey|key with mismatching H(ek) accepted|embedded ek coefficient>=q, hash of the normalised ek", id,
+							fmt.Sprintf("%s: the embedded ek has a coefficient %d >= q and the stored hash is that of the reduced ek, not of the key bytes (FIPS 203 7.3 hash check fails), yet the key was accepted; re-encodes to the same bytes: %v",
+								id, c.v, bytes.Equal(re, key)), rp)
+					}
+					return
+				}
+				r.Count("dk_unreduced_ek_hash_over_bytes_cases(either verdict allowed)", 1)
+				if err != nil {
+					r.Outcome(s.name + ":unreduced embedded ek with matching hash refused")
+					return
+				}
+				r.Outcome(s.name + ":unreduced embedded ek with matching hash accepted")
+			} else if err != nil {
+				r.Violation("C03|"+s.name+".UnmarshalBinaryPrivateKey|key of the right length refused|embedded ek coefficient>=q", id, fmt.Sprintf("%s: refused: %v", id, err), rp)
+				return
+			}
+			if !(r.Thorough() || c.v == c03q || c.v == 4095 || c.v%32 == 0) {
+				return
+			}
+			want, _ := s.refDecaps(key, honestCt)
+			var got []byte
+			if pn, what := verifmc.Try(func() { got, err = s.s.Decapsulate(sk, honestCt) }); pn || err != nil {
+				r.Violation("C03|"+s.name+".Decapsulate|panic or error with parsed key|embedded ek coefficient>=q", id, fmt.Sprintf("%s %v", what, err), rp)
+				return
+			}
+			r.Eval(1)
+			r.Count("dk_unreduced_ek_decaps_compared", 1)
+			if !bytes.Equal(got, want) {
+				r.Violation("C03|"+s.name+".Decapsulate|parsed key: shared secret differs from "+s.spec()+"|embedded ek coefficient>=q", id,
+					fmt.Sprintf("%s: Decapsulate = %x, %s on the raw key bytes = %x", id, got, s.spec(), want), rp)
+			}
+		})
 	}
 	if !r.Replaying() {
 		r.RequireCounter("ek_wellformed_accepted", 3*5*3329)
@@ -596,6 +696,9 @@ func TestVerifC03_keyparse(t *testing.T) {
 		r.RequireCounter("ek_nonreduced_accepted_by_kyber", 3*5*767)
 		r.RequireCounter("dk_hash_mismatch_cases", 3*256)
 		r.RequireCounter("dk_wellformed_accepted", 3*256)
+		r.RequireCounter("dk_unreduced_ek_hash_over_normalised_cases", 3*6*767)
+		r.RequireCounter("dk_unreduced_ek_hash_over_bytes_cases(either verdict allowed)", 3*6*767)
+		r.RequireCounter("dk_unreduced_ek_decaps_compared", 100)
 	}
 	r.Sample(map[string]interface{}{"case": "ML-KEM-768/ek/coef0=3329", "expect": "refused (coefficient = q)"})
 	r.Sample(map[string]interface{}{"case": "ML-KEM-768/dk/flip9216", "expect": "refused (bit inside the ek copy, hash mismatch)"})
